@@ -72,7 +72,7 @@ func NewGen(r *common.Rng, p Profile) *Gen {
 			Shards:  common.Pick(r, []uint32{0, 1, 2, 3, 7, 10, 16, 100, 1000}),
 			GcInt:   1000 * time.Hour,
 			GcIdle:  common.Pick(r, []time.Duration{0, 1, time.Second, 5 * time.Minute}),
-			Dlt:     common.Pick(r, []time.Duration{2 * time.Second, 10 * time.Minute, time.Second, 3 * time.Second}),
+			Dlt:     common.Pick(r, []time.Duration{2 * time.Second, 10 * time.Minute, time.Second, 3 * time.Second, 1500 * time.Millisecond, 800 * time.Millisecond, 2*time.Second + 1}),
 			NoClear: r.Chance(20),
 			File:    r.Chance(85),
 		}
